@@ -191,7 +191,7 @@ func roleOf(r *env.Recorded) string {
 		return "unparsable"
 	}
 
-	switch u.Host {
+	switch u.Hostname() {
 	case hostAuthz:
 		return "authorization-endpoint"
 	case hostCtx:
@@ -335,7 +335,7 @@ func respond(r *env.Recorded) (*http.Response, error) {
 
 func newRemote() *env.Transport {
 	tr := env.NewTransport()
-	for _, h := range []string{hostAuthz, hostCtx, hostIDP} {
+	for _, h := range []string{hostAuthz, hostCtx, hostIDP, hostCtx + ":8443"} {
 		tr.Handlers[h] = respond
 	}
 
